@@ -94,3 +94,11 @@ def rope_fmt(value, prec, kind='f'):
 
 def text_equal(a, b):
     return a == b
+
+
+def stub(target, fn):
+    raise NotImplementedError('stubs exist only in the symbolic run')
+
+
+def fs_initially(what, path):
+    raise NotImplementedError('the ghost file system exists only in the symbolic run')
